@@ -274,6 +274,13 @@ def model_request(rule, spec, cfg, res, names):
                     cur["sq"] = names.idx[str(c[3])]
             req.update(pick=[[]] + [r["pick"] for r in rounds], u=["0"] + [r["u"] for r in rounds],
                        sq=[0] + [r["sq"] for r in rounds])
+    elif rule == "PluralityVeto":
+        calls = res["log"].calls
+        order = next((c[1] for c in calls if c[0] == "npshuffle"), [])
+        samples = [[names.idx[str(x)] for x in c[3]] for c in calls
+                   if c[0] == "sample" and c[1] and isinstance(c[1][0], str)]
+        req.update(op="plurality_veto", m=cfg["m"], tiebreak=cfg.get("tiebreak"), order=[int(i) for i in order],
+                   samples=samples)
     else:
         raise ValueError(rule)
     return req
@@ -344,5 +351,8 @@ def compare_states(model, expect):
             return "fpv_link: firstPlaceVotes of the model differs from the tallies of the initial count state (hypothesis of C07_droop_psc_fractional)"
         return None
     if "exn" in model and "exn" in expect and model["exn"] == expect["exn"]:
+        return None
+    if "fuel" in model and "timeout" in expect:
+        # the model's loop ran out of fuel where the implementation's loop did not end within the alarm
         return None
     return f"model {list(model)[0]}:{model.get('exn', '')} vs impl {list(expect)[0]}:{expect.get('exn', '')}"
